@@ -152,8 +152,36 @@ func Gen(r *vh.Rand, o GenOpts) Scenario {
 		}
 		return out
 	}
+	// label universe: 2-4 label sets sharing alertname so that they group together
+	names := []string{"A", "A", "B"}
+	nls := r.Range(2, 4)
+	for i := 0; i < nls; i++ {
+		ls := map[string]string{"alertname": vh.Pick(r, names), "job": vh.Pick(r, []string{"a", "b"}), "inst": fmt.Sprintf("i%d", i)}
+		if r.Chance(1, 3) {
+			ls["sev"] = vh.Pick(r, []string{"a", "b"})
+		}
+		sc.LabelSets = append(sc.LabelSets, ls)
+	}
 	sc.Receivers = map[string][]IntJ{"default": mkInts()}
-	if o.Routes && r.Chance(2, 3) {
+	if o.Routes && r.Chance(1, 4) {
+		// a shape the routing rule is easy to get wrong on: a matching child with continue, then a child that does
+		// not match (no continue), then another matching child — for the first label set
+		ls0 := sc.LabelSets[0]
+		other := "b"
+		if ls0["job"] == "b" {
+			other = "a"
+		}
+		sc.Routes = []RouteJ{
+			{Receiver: "audit", Continue: true, Match: map[string]string{"job": ls0["job"]}},
+			{Receiver: "team", Match: map[string]string{"job": other}, GroupBy: vh.Pick(r, [][]string{nil, {}, {"job"}})},
+			{Receiver: "default", Match: map[string]string{"alertname": ls0["alertname"]}, GroupBy: vh.Pick(r, [][]string{nil, {}, {"..."}})},
+		}
+		for _, rj := range sc.Routes {
+			if _, ok := sc.Receivers[rj.Receiver]; !ok {
+				sc.Receivers[rj.Receiver] = mkInts()
+			}
+		}
+	} else if o.Routes && r.Chance(2, 3) {
 		nr := r.Range(1, 3)
 		for i := 0; i < nr; i++ {
 			rj := RouteJ{Receiver: vh.Pick(r, []string{"default", "team", "audit"}), Continue: r.Chance(1, 2)}
@@ -176,16 +204,6 @@ func Gen(r *vh.Rand, o GenOpts) Scenario {
 				sc.Receivers[rj.Receiver] = mkInts()
 			}
 		}
-	}
-	// label universe: 2-4 label sets sharing alertname so that they group together
-	names := []string{"A", "A", "B"}
-	nls := r.Range(2, 4)
-	for i := 0; i < nls; i++ {
-		ls := map[string]string{"alertname": vh.Pick(r, names), "job": vh.Pick(r, []string{"a", "b"}), "inst": fmt.Sprintf("i%d", i)}
-		if r.Chance(1, 3) {
-			ls["sev"] = vh.Pick(r, []string{"a", "b"})
-		}
-		sc.LabelSets = append(sc.LabelSets, ls)
 	}
 	// timeline: steps drawn from multiples / neighbours of the configured intervals
 	steps := []int64{0, 1, int64(time.Second), sc.GW, sc.GI, sc.GI - 1, sc.GI + 1, sc.RI, sc.RI + 1, sc.GI / 2, 2 * sc.GI, int64(time.Minute), sc.RI / 2}
@@ -321,7 +339,7 @@ func Run(t *testing.T, sc *Scenario) *Result {
 			res.Hash[sim.HashAlert(ls)] = i + 1
 		}
 	}
-	ok := sim.Bubble(t, 20*time.Second, func(t *testing.T) {
+	ok := sim.Bubble(t, 10*time.Second, func(t *testing.T) {
 		ints := map[string][]sim.IntSpec{}
 		for name, ij := range sc.Receivers {
 			for i, x := range ij {
@@ -394,9 +412,7 @@ func Run(t *testing.T, sc *Scenario) *Result {
 		// remember which groups each label set belongs to
 		res.member = map[int][]string{}
 		for i, m := range sc.LabelSets {
-			for _, g := range s.GroupKeysFor(toLS(m)) {
-				res.member[i+1] = append(res.member[i+1], g.Key)
-			}
+			res.member[i+1] = sc.refGroups(toLS(m))
 		}
 		s.Stop()
 	})
@@ -579,6 +595,12 @@ func (res *Result) Case(gkey string) (string, map[string]int) {
 			}
 			evs = append(evs, evt{t: r.T, ev: vh.App("ENflogMerge", vh.Nat(r.I), vh.App("mkN", res.hashIDs(r.Firing), res.hashIDs(r.Resolved), vh.Z(r.Ts), vh.Z(r.Exp)))})
 			stats["merge"]++
+		case "load":
+			if r.GKey != gkey || r.Recv != g.Receiver || r.I >= len(g.Ints) {
+				continue
+			}
+			evs = append(evs, evt{t: r.T, ev: vh.App("ENflogLoad", vh.Nat(r.I), vh.App("mkN", res.hashIDs(r.Firing), res.hashIDs(r.Resolved), vh.Z(r.Ts), vh.Z(r.Exp)))})
+			stats["snapshot-load"]++
 		case "flushend":
 			if r.GKey != gkey {
 				continue
@@ -909,6 +931,10 @@ func Monitor(res *Result, which string) []vh.Violation {
 			}
 			for _, gk := range res.member[res.idOf(a.Labels)] {
 				g := res.Groups[gk]
+				if g == nil {
+					add("routed-group-does-not-exist", fmt.Sprintf("the routing rule + group_by assign alert %d to group %s, which the instance never has", res.idOf(a.Labels), gk))
+					continue
+				}
 				bound := g.GW
 				if g.GI > bound {
 					bound = g.GI
@@ -988,6 +1014,9 @@ func Monitor(res *Result, which string) []vh.Violation {
 			id := res.idOf(r.Alerts[0].Labels)
 			for _, gk := range res.member[id] {
 				g := res.Groups[gk]
+				if g == nil {
+					continue
+				}
 				fs := fl[gk]
 				for k, f := range fs {
 					if !(f.Ended && f.T < r.T && r.T <= f.TEnd) {
@@ -1167,4 +1196,55 @@ func (res *Result) hasSilenceOps() bool {
 		}
 	}
 	return false
+}
+
+// refGroups is an INDEPENDENT reference for "which groups does an alert belong to": the routing rule (root always
+// matches; children in order, first match wins unless continue; the node itself only if no child matched) and the
+// group_by inheritance are re-implemented here on the scenario's own route description, without calling
+// dispatch.Route.Match or getGroupLabels. Scenario routes are one level deep with equality matchers only.
+func (sc *Scenario) refGroups(ls model.LabelSet) []string {
+	type node struct {
+		key     string
+		groupBy []string
+	}
+	var chosen []node
+	for _, r := range sc.Routes {
+		ok := true
+		for k, v := range r.Match {
+			if string(ls[model.LabelName(k)]) != v {
+				ok = false
+			}
+		}
+		if !ok {
+			continue
+		}
+		gb := r.GroupBy
+		if gb == nil {
+			gb = sc.GroupBy
+		}
+		ks := vh.SortedKeys(r.Match)
+		parts := make([]string, len(ks))
+		for i, k := range ks {
+			parts[i] = fmt.Sprintf("%s=%q", k, r.Match[k])
+		}
+		chosen = append(chosen, node{key: "{}/{" + strings.Join(parts, ",") + "}", groupBy: gb})
+		if !r.Continue {
+			break
+		}
+	}
+	if len(chosen) == 0 {
+		chosen = []node{{key: "{}", groupBy: sc.GroupBy}}
+	}
+	var out []string
+	for _, n := range chosen {
+		gl := model.LabelSet{}
+		all := len(n.groupBy) == 1 && n.groupBy[0] == "..."
+		for name, v := range ls {
+			if all || containsStr(n.groupBy, string(name)) {
+				gl[name] = v
+			}
+		}
+		out = append(out, n.key+":"+gl.String())
+	}
+	return out
 }
